@@ -146,12 +146,12 @@ func genV2Graded(r *rng) []string {
 		return strings.Join(parts, "/")
 	}
 	out := []string{
-		full(3),                        // 14 parts
-		full(3) + "/X:Y/Z:W",           // > 14 parts, remainder lands in the last slot
-		full(2),                        // 11
-		full(1),                        // 9
-		full(0),                        // 6
-		full(0) + "/E:" + r.pick(spec20.metric("E").Values), // 7: cut short inside a group
+		full(3),              // 14 parts
+		full(3) + "/X:Y/Z:W", // > 14 parts, remainder lands in the last slot
+		full(2),              // 11
+		full(1),              // 9
+		full(0),              // 6
+		full(0) + "/E:" + r.pick(spec20.metric("E").Values),               // 7: cut short inside a group
 		full(1) + "/CDP:" + r.pick(spec20.metric("CDP").Values) + "/TD:H", // 11 but incomplete env
 		"AV:N",
 		"",
@@ -276,9 +276,9 @@ func genValue(r *rng, ver int, abv string, adversarial float64) string {
 
 type weights struct {
 	parse, vector, get, set, score, nomen, rating, copy_, rtrip, zero, errstr int
-	advMetric, advValue                                                     float64
-	v2bias                                                                  float64
-	parseToCell                                                             float64
+	advMetric, advValue                                                       float64
+	v2bias                                                                    float64
+	parseToCell                                                               float64
 }
 
 var propWeights = map[string]weights{
@@ -318,175 +318,184 @@ func genPlanOpt(seed uint64, prop string, cold bool) *Plan {
 	}
 	maxOps := []int{3, 6, 12, 25, 40}[r.intn(5)]
 
-	// cells
-	nShared := r.intn(4)
-	for t := 0; t < nTasks; t++ {
-		for k := 1 + r.intn(3); k > 0; k-- {
-			p.Cells = append(p.Cells, CellSpec{Ver: pickVer(r, 0.25), Mode: mPriv, Owner: t, Init: cellInit(r)})
-		}
-	}
-	for k := 0; k < nShared && len(p.Cells) < 12; k++ {
-		mode := []string{mRO, mROHeap, mLock}[r.intn(3)]
-		if prop != "C14" {
-			// histories on shared objects run under the caller's lock; some
-			// shared objects are only read, by everybody, without a lock
-			mode = mLock
-			if r.chance(0.3) {
-				mode = mROHeap
-			}
-		}
-		p.Cells = append(p.Cells, CellSpec{Ver: pickVer(r, 0.25), Mode: mode, Owner: -1, Init: cellInit(r)})
-	}
-	coldZero := cold && r.chance(0.7)
-	for i := range p.Cells {
-		if p.Cells[i].Init == "?" {
-			p.Cells[i].Init = genValid(r, p.Cells[i].Ver)
-			if coldZero && p.Cells[i].Mode != mRO && p.Cells[i].Mode != mROHeap {
-				p.Cells[i].Init = "" // nothing of the library runs before the tasks
-			}
-		}
-	}
-
-	// per-run palette of strings: repeated keys are what O1 compares
-	var palette = map[int][]string{}
-	for _, ver := range versions {
-		for k := 2 + r.intn(5); k > 0; k-- {
-			palette[ver] = append(palette[ver], genVector(r, ver))
-		}
-	}
-	graded := genV2Graded(r)
-	pGraded := r.float()
-	pPalette := 0.3 + 0.6*r.float()
-
-	kinds := []struct {
-		k string
-		w int
-	}{{kParse, w.parse}, {kVector, w.vector}, {kGet, w.get}, {kSet, w.set}, {kScore, w.score}, {kNomen, w.nomen}, {kRating, w.rating}, {kCopy, w.copy_}, {kRTrip, w.rtrip}, {kZero, w.zero}, {kErrStr, w.errstr}}
-	total := 0
-	for _, k := range kinds {
-		total += k.w
-	}
-	pickKind := func() string {
-		x := r.intn(total)
-		for _, k := range kinds {
-			if x < k.w {
-				return k.k
-			}
-			x -= k.w
-		}
-		return kParse
-	}
-	// cells usable by task t
-	usable := func(t int, mutating bool, ver int) []int {
-		var c []int
-		for i, cs := range p.Cells {
-			if ver != 0 && cs.Ver != ver {
-				continue
-			}
-			switch cs.Mode {
-			case mPriv:
-				if cs.Owner == t {
-					c = append(c, i)
-				}
-			case mLock:
-				c = append(c, i)
-			default:
-				if !mutating {
-					c = append(c, i)
-				}
-			}
-		}
-		return c
-	}
 	nParse := 0
-	for t := 0; t < nTasks; t++ {
-		n := 1 + r.intn(maxOps)
-		var ops []Op
-		for len(ops) < n {
-			// neighbour probe: the same observation before and after changing
-			// one metric of the object (memos and caches keyed on part of the
-			// object answer the second one with the first one's result)
-			if r.chance(0.1) {
-				if c := usable(t, true, 0); len(c) > 0 {
-					ci := c[r.intn(len(c))]
-					ver := p.Cells[ci].Ver
-					obs := Op{K: r.pick([]string{kVector, kScore, kRTrip, kVector, kScore}), C: ci, D: -1}
-					if obs.K == kScore {
-						obs.S = r.pick(apis[ver].ScoreNames())
-					}
-					m := specs[ver].Metrics[r.intn(len(specs[ver].Metrics))]
-					ops = append(ops, obs, Op{K: kSet, C: ci, D: -1, S: m.Abv, S2: r.pick(m.Values)}, obs)
-					continue
+	hot := prop == "C14" && !cold && r.chance(0.15)
+	if hot {
+		nTasks, nParse = genHot(r, p)
+	} else {
+		// cells
+		nShared := r.intn(4)
+		for t := 0; t < nTasks; t++ {
+			for k := 1 + r.intn(3); k > 0; k-- {
+				p.Cells = append(p.Cells, CellSpec{Ver: pickVer(r, 0.25), Mode: mPriv, Owner: t, Init: cellInit(r)})
+			}
+		}
+		for k := 0; k < nShared && len(p.Cells) < 12; k++ {
+			mode := []string{mRO, mROHeap, mLock}[r.intn(3)]
+			if prop != "C14" {
+				// histories on shared objects run under the caller's lock; some
+				// shared objects are only read, by everybody, without a lock
+				mode = mLock
+				if r.chance(0.3) {
+					mode = mROHeap
 				}
 			}
-			k := pickKind()
-			op := Op{K: k, C: -1, D: -1}
-			switch k {
-			case kParse:
-				nParse++
-				op.V = pickVer(r, w.v2bias)
-				switch {
-				case op.V == 20 && r.chance(pGraded):
-					op.S = r.pick(graded)
-				case r.chance(pPalette):
-					op.S = r.pick(palette[op.V])
-				default:
-					op.S = genVector(r, op.V)
+			p.Cells = append(p.Cells, CellSpec{Ver: pickVer(r, 0.25), Mode: mode, Owner: -1, Init: cellInit(r)})
+		}
+		coldZero := cold && r.chance(0.7)
+		for i := range p.Cells {
+			if p.Cells[i].Init == "?" {
+				p.Cells[i].Init = genValid(r, p.Cells[i].Ver)
+				if coldZero && p.Cells[i].Mode != mRO && p.Cells[i].Mode != mROHeap {
+					p.Cells[i].Init = "" // nothing of the library runs before the tasks
 				}
-				if r.chance(w.parseToCell) {
-					if c := usable(t, true, op.V); len(c) > 0 {
-						op.D = c[r.intn(len(c))]
+			}
+		}
+
+		// per-run palette of strings: repeated keys are what O1 compares
+		var palette = map[int][]string{}
+		for _, ver := range versions {
+			for k := 2 + r.intn(5); k > 0; k-- {
+				palette[ver] = append(palette[ver], genVector(r, ver))
+			}
+		}
+		graded := genV2Graded(r)
+		pGraded := r.float()
+		pPalette := 0.3 + 0.6*r.float()
+
+		kinds := []struct {
+			k string
+			w int
+		}{{kParse, w.parse}, {kVector, w.vector}, {kGet, w.get}, {kSet, w.set}, {kScore, w.score}, {kNomen, w.nomen}, {kRating, w.rating}, {kCopy, w.copy_}, {kRTrip, w.rtrip}, {kZero, w.zero}, {kErrStr, w.errstr}}
+		total := 0
+		for _, k := range kinds {
+			total += k.w
+		}
+		pickKind := func() string {
+			x := r.intn(total)
+			for _, k := range kinds {
+				if x < k.w {
+					return k.k
+				}
+				x -= k.w
+			}
+			return kParse
+		}
+		// cells usable by task t
+		usable := func(t int, mutating bool, ver int) []int {
+			var c []int
+			for i, cs := range p.Cells {
+				if ver != 0 && cs.Ver != ver {
+					continue
+				}
+				switch cs.Mode {
+				case mPriv:
+					if cs.Owner == t {
+						c = append(c, i)
+					}
+				case mLock:
+					c = append(c, i)
+				default:
+					if !mutating {
+						c = append(c, i)
 					}
 				}
-			case kRating:
-				op.V = []int{30, 31, 40}[r.intn(3)]
-				op.F = genRatingArg(r)
-			case kCopy:
-				src := usable(t, false, 0)
-				if len(src) == 0 {
-					continue
-				}
-				op.C = src[r.intn(len(src))]
-				dst := usable(t, true, p.Cells[op.C].Ver)
-				if len(dst) == 0 {
-					continue
-				}
-				op.D = dst[r.intn(len(dst))]
-				if op.D == op.C {
-					continue
-				}
-			case kErrStr:
-				// no arguments
-			default:
-				mut := k == kSet || k == kZero
-				c := usable(t, mut, 0)
-				if len(c) == 0 {
-					continue
-				}
-				op.C = c[r.intn(len(c))]
-				ver := p.Cells[op.C].Ver
-				switch k {
-				case kGet:
-					op.S = genMetric(r, ver, w.advMetric)
-				case kSet:
-					op.S = genMetric(r, ver, w.advMetric)
-					op.S2 = genValue(r, ver, op.S, w.advValue)
-				case kScore:
-					op.S = r.pick(apis[ver].ScoreNames())
-				case kNomen:
-					if ver != 40 {
+			}
+			return c
+		}
+		for t := 0; t < nTasks; t++ {
+			n := 1 + r.intn(maxOps)
+			var ops []Op
+			for len(ops) < n {
+				// neighbour probe: the same observation before and after changing
+				// one metric of the object (memos and caches keyed on part of the
+				// object answer the second one with the first one's result)
+				if r.chance(0.1) {
+					if c := usable(t, true, 0); len(c) > 0 {
+						ci := c[r.intn(len(c))]
+						ver := p.Cells[ci].Ver
+						obs := Op{K: r.pick([]string{kVector, kScore, kRTrip, kVector, kScore}), C: ci, D: -1}
+						if obs.K == kScore {
+							obs.S = r.pick(apis[ver].ScoreNames())
+						}
+						m := specs[ver].Metrics[r.intn(len(specs[ver].Metrics))]
+						ops = append(ops, obs, Op{K: kSet, C: ci, D: -1, S: m.Abv, S2: r.pick(m.Values)}, obs)
 						continue
 					}
 				}
+				k := pickKind()
+				op := Op{K: k, C: -1, D: -1}
+				switch k {
+				case kParse:
+					nParse++
+					op.V = pickVer(r, w.v2bias)
+					switch {
+					case op.V == 20 && r.chance(pGraded):
+						op.S = r.pick(graded)
+					case r.chance(pPalette):
+						op.S = r.pick(palette[op.V])
+					default:
+						op.S = genVector(r, op.V)
+					}
+					if r.chance(w.parseToCell) {
+						if c := usable(t, true, op.V); len(c) > 0 {
+							op.D = c[r.intn(len(c))]
+						}
+					}
+				case kRating:
+					op.V = []int{30, 31, 40}[r.intn(3)]
+					op.F = genRatingArg(r)
+				case kCopy:
+					src := usable(t, false, 0)
+					if len(src) == 0 {
+						continue
+					}
+					op.C = src[r.intn(len(src))]
+					dst := usable(t, true, p.Cells[op.C].Ver)
+					if len(dst) == 0 {
+						continue
+					}
+					op.D = dst[r.intn(len(dst))]
+					if op.D == op.C {
+						continue
+					}
+				case kErrStr:
+					// no arguments
+				default:
+					mut := k == kSet || k == kZero
+					c := usable(t, mut, 0)
+					if len(c) == 0 {
+						continue
+					}
+					op.C = c[r.intn(len(c))]
+					ver := p.Cells[op.C].Ver
+					switch k {
+					case kGet:
+						op.S = genMetric(r, ver, w.advMetric)
+					case kSet:
+						op.S = genMetric(r, ver, w.advMetric)
+						op.S2 = genValue(r, ver, op.S, w.advValue)
+					case kScore:
+						op.S = r.pick(apis[ver].ScoreNames())
+					case kNomen:
+						if ver != 40 {
+							continue
+						}
+					}
+				}
+				ops = append(ops, op)
 			}
-			ops = append(ops, op)
+			p.Tasks = append(p.Tasks, ops)
 		}
-		p.Tasks = append(p.Tasks, ops)
+
 	}
 
 	// schedule
 	nOps := p.nOps()
-	p.Policy = []string{"seq", "random", "pct", "rr", "pct", "random"}[r.intn(6)]
+	p.Policy = []string{"seq", "random", "pct", "rr", "pct", "random", "stall"}[r.intn(7)]
+	if hot {
+		p.Policy = []string{"random", "pct", "random", "rr", "stall"}[r.intn(5)]
+	}
 	if nTasks == 1 {
 		p.Policy = "seq"
 	}
@@ -524,6 +533,17 @@ func genPlanOpt(seed uint64, prop string, cold bool) *Plan {
 				p.Sched = append(p.Sched, uint32(1+r.intn(8)))
 			}
 		}
+	case "stall":
+		// one victim starts first, is preempted somewhere inside a library
+		// call and stays descheduled while all the others run to completion
+		// (a goroutine parked by the OS scheduler for a long time)
+		victim := nTasks - 1
+		p.Sched = []uint32{uint32(victim)}
+		for t := 0; t < nTasks; t++ {
+			p.Preempt = append(p.Preempt, nil)
+		}
+		maxGap := []int{30, 150, 600, 3000}[r.intn(4)]
+		p.Preempt[victim] = []int64{int64(1 + r.intn(maxGap))}
 	case "rr":
 		q := int64([]int{3, 8, 25, 80, 300}[r.intn(5)])
 		for t := 0; t < nTasks; t++ {
@@ -582,6 +602,9 @@ func genPlanOpt(seed uint64, prop string, cold bool) *Plan {
 		}
 		p.PoolDec = append(p.PoolDec, d)
 	}
+	if hot {
+		p.Policy = "hot-" + p.Policy
+	}
 	return p
 }
 
@@ -614,4 +637,69 @@ func genRatingArg(r *rng) float64 {
 	default:
 		return r.float() * 10
 	}
+}
+
+// genHot builds a narrow, contended workload: several tasks hammer one or two
+// kinds of operation on objects that hold one of two or three values of ONE
+// version. Check-then-act windows, memo keys that collide and allocators that
+// recycle need the same few values and many calls close together; the broad
+// mix almost never produces that.
+func genHot(r *rng, p *Plan) (nTasks, nParse int) {
+	p.Policy = "hot"
+	ver := pickVer(r, 0.3)
+	nTasks = 3 + r.intn(6) // 3..8
+	nVals := 2 + r.intn(2)
+	var vals []string
+	for i := 0; i < nVals; i++ {
+		vals = append(vals, genValid(r, ver))
+	}
+	// also a failing and a near-identical string for the parsers
+	bad := mutate(r, vals[0], ver)
+	kinds := [][]string{{kScore}, {kParse}, {kVector}, {kScore, kParse}, {kVector, kParse}, {kRTrip}, {kParse, kSet}, {kGet, kScore}, {kParse, kErrStr}}[r.intn(9)]
+	perTask := []int{8, 16, 32, 64}[r.intn(4)]
+	for t := 0; t < nTasks; t++ {
+		for k := 0; k < 2; k++ {
+			p.Cells = append(p.Cells, CellSpec{Ver: ver, Mode: mPriv, Owner: t, Init: vals[r.intn(len(vals))]})
+		}
+	}
+	if r.chance(0.5) {
+		p.Cells = append(p.Cells, CellSpec{Ver: ver, Mode: []string{mRO, mROHeap}[r.intn(2)], Owner: -1, Init: vals[0]})
+	}
+	sp := specs[ver]
+	for t := 0; t < nTasks; t++ {
+		var ops []Op
+		own := []int{2 * t, 2*t + 1}
+		for len(ops) < perTask {
+			k := kinds[r.intn(len(kinds))]
+			c := own[r.intn(2)]
+			if len(p.Cells) > 2*nTasks && r.chance(0.25) && k != kSet {
+				c = len(p.Cells) - 1
+			}
+			op := Op{K: k, C: c, D: -1}
+			switch k {
+			case kParse:
+				nParse++
+				op.C, op.V = -1, ver
+				op.S = vals[r.intn(len(vals))]
+				if r.chance(0.2) {
+					op.S = bad
+				}
+				if r.chance(0.5) {
+					op.D = own[r.intn(2)]
+				}
+			case kScore:
+				op.S = r.pick(apis[ver].ScoreNames())
+			case kGet:
+				op.S = sp.Metrics[r.intn(len(sp.Metrics))].Abv
+			case kSet:
+				m := sp.Metrics[r.intn(len(sp.Metrics))]
+				op.S, op.S2 = m.Abv, r.pick(m.Values)
+			case kErrStr:
+				op.C = -1
+			}
+			ops = append(ops, op)
+		}
+		p.Tasks = append(p.Tasks, ops)
+	}
+	return nTasks, nParse
 }
